@@ -77,6 +77,11 @@ pub enum AQ {
     Agg { t: u8, group: Vec<u8>, aggs: Vec<(u8, u16)>, pred: Option<AB> },
     Update { t: u8, sets: Vec<(u16, AN)>, pred: Option<AB> },
     Delete { t: u8, pred: Option<AB> },
+    Join3 { kinds: [u8; 2], ons: [AB; 2], pred: Option<AB> },
+    Union { cols: [u16; 2], preds: [Option<AB>; 2], all: bool },
+    AggOrdered { t: u8, group: u8, aggs: Vec<(u8, u16)>, desc: bool, #[serde(default)] agg_first: bool },
+    /// INSERT with a column list (omitted columns become NULL) and 1-3 rows
+    Insert { t: u8, cols: Vec<u8>, rows: Vec<Vec<Option<u8>>> },
 }
 
 #[derive(Clone, Debug, Serialize, Deserialize, Hash)]
@@ -228,6 +233,7 @@ pub enum Resolved {
     Q(Query),
     Update { table: u8, sets: Vec<(u8, E)>, pred: Option<E> },
     Delete { table: u8, pred: Option<E> },
+    Insert { table: u8, cols: Vec<u8>, rows: Vec<Vec<Val>> },
 }
 
 pub fn resolve_q(q: &AQ, tables: &[TableData]) -> Resolved {
@@ -242,7 +248,8 @@ pub fn resolve_q(q: &AQ, tables: &[TableData]) -> Resolved {
             if let Some(c) = computed {
                 proj.push(res_n(c, &sc));
             }
-            let order: Vec<(u8, bool)> = order.iter().map(|(c, d)| ((*c as usize % k) as u8, *d)).collect();
+            let np = proj.len();
+            let order: Vec<(u8, bool)> = order.iter().map(|(c, d)| ((*c as usize % np) as u8, *d)).collect();
             let mut seen = std::collections::BTreeSet::new();
             let order: Vec<(u8, bool)> = order.into_iter().filter(|(c, _)| seen.insert(*c)).collect();
             Resolved::Q(Query::Select { table: t, proj, distinct: *distinct, pred: pred.as_ref().map(|p| res_b(p, &sc)), order, limit: limit.map(|(n, m)| ((n % 7) as u32, (m % 4) as u32)) })
@@ -305,6 +312,46 @@ pub fn resolve_q(q: &AQ, tables: &[TableData]) -> Resolved {
             let t = t % nt;
             let sc = scope_of(tables, &[t]);
             Resolved::Delete { table: t, pred: pred.as_ref().map(|p| res_b(p, &sc)) }
+        }
+        AQ::Join3 { kinds, ons, pred } => {
+            let ts = [0u8, if nt > 1 { 1 } else { 0 }, if nt > 2 { 2 } else { 0 }];
+            let jk = |k: u8| [JoinKind::Inner, JoinKind::Left, JoinKind::Inner, JoinKind::Cross, JoinKind::Right, JoinKind::Full][k as usize % 6];
+            let sc2 = scope_of(tables, &[ts[0], ts[1]]);
+            let sc3 = scope_of(tables, &[ts[0], ts[1], ts[2]]);
+            Resolved::Q(Query::Join3 { tables: ts, kinds: [jk(kinds[0]), jk(kinds[1])], ons: [Some(res_b(&ons[0], &sc2)), Some(res_b(&ons[1], &sc3))], pred: pred.as_ref().map(|p| res_b(p, &sc3)) })
+        }
+        AQ::Union { cols, preds, all } => {
+            let (l, r) = (0u8, if nt > 1 { 1u8 } else { 0u8 });
+            let (lc, rc) = (&tables[l as usize].cols, &tables[r as usize].cols);
+            // same-category columns on both sides
+            let li = pick_idx(cols[0], lc.len());
+            let numeric = |t: Ty| matches!(t, Ty::Int | Ty::BigInt | Ty::Double);
+            let cands: Vec<usize> = (0..rc.len()).filter(|i| if numeric(lc[li].1) { numeric(rc[*i].1) } else { rc[*i].1 == lc[li].1 }).collect();
+            if cands.is_empty() {
+                return Resolved::Q(Query::Select { table: l, proj: vec![E::Col(0, li as u8)], distinct: true, pred: None, order: vec![], limit: None });
+            }
+            let ri = cands[pick_idx(cols[1], cands.len())];
+            let (scl, scr) = (scope_of(tables, &[l]), scope_of(tables, &[r]));
+            Resolved::Q(Query::Union { left: (l, li as u8, preds[0].as_ref().map(|p| res_b(p, &scl))), right: (r, ri as u8, preds[1].as_ref().map(|p| res_b(p, &scr))), all: *all })
+        }
+        AQ::AggOrdered { t, group, aggs, desc, agg_first } => {
+            let t = t % nt;
+            match resolve_q(&AQ::Agg { t, group: vec![*group], aggs: aggs.clone(), pred: None }, tables) {
+                Resolved::Q(Query::Agg { table, group, aggs, .. }) if group.len() == 1 => Resolved::Q(Query::AggOrdered { table, group: group[0], aggs, desc: *desc, agg_first: *agg_first }),
+                other => other,
+            }
+        }
+        AQ::Insert { t, cols, rows } => {
+            let t = t % nt;
+            let tc = &tables[t as usize].cols;
+            let mut cs: Vec<u8> = cols.iter().map(|c| (*c as usize % tc.len()) as u8).collect();
+            let mut seen = std::collections::BTreeSet::new();
+            cs.retain(|c| seen.insert(*c));
+            let rows = rows.iter().take(3).map(|r| cs.iter().enumerate().map(|(i, c)| match r.get(i).copied().flatten() {
+                Some(v) => val_for(tc[*c as usize].1, v),
+                None => Val::Null,
+            }).collect()).collect();
+            Resolved::Insert { table: t, cols: cs, rows }
         }
     }
 }
@@ -391,6 +438,29 @@ pub fn features_of(q: &Resolved) -> Vec<String> {
             f.push("q.delete");
             add(pred, &mut f);
         }
+        Resolved::Insert { .. } => f.push("q.insert_column_list"),
+        Resolved::Q(Query::Join3 { kinds, ons, pred, .. }) => {
+            f.push("q.join3");
+            if kinds.iter().any(|k| !matches!(k, JoinKind::Inner | JoinKind::Cross)) {
+                f.push("q.join3.outer");
+            }
+            for o in ons {
+                add(o, &mut f);
+            }
+            add(pred, &mut f);
+        }
+        Resolved::Q(Query::Union { left, right, all }) => {
+            f.push(if *all { "q.union_all" } else { "q.union" });
+            add(&left.2, &mut f);
+            add(&right.2, &mut f);
+        }
+        Resolved::Q(Query::AggOrdered { agg_first, .. }) => {
+            f.push("q.aggregate");
+            f.push("q.group_by_order_by");
+            if *agg_first {
+                f.push("q.aggregate_before_group_column");
+            }
+        }
     }
     let mut v: Vec<String> = f.into_iter().map(|s| s.to_string()).collect();
     v.sort();
@@ -468,10 +538,15 @@ pub fn run_case(c: &QCase) -> CaseOut {
                 }
                 // non-trivial?
                 let candidates = match q {
-                    Query::Select { table, .. } | Query::Agg { table, .. } => tables[*table as usize].rows.len(),
+                    Query::Select { table, .. } | Query::Agg { table, .. } | Query::AggOrdered { table, .. } => tables[*table as usize].rows.len(),
                     Query::Join { left, right, .. } => tables[*left as usize].rows.len() * tables[*right as usize].rows.len(),
+                    Query::Join3 { tables: ts, .. } => ts.iter().map(|t| tables[*t as usize].rows.len()).product(),
+                    Query::Union { left, right, .. } => tables[left.0 as usize].rows.len() + tables[right.0 as usize].rows.len(),
                 };
                 let nontrivial = match q {
+                    Query::AggOrdered { .. } => want.rows.len() >= 2,
+                    Query::Join3 { .. } => !want.rows.is_empty() && want.rows.len() < candidates.max(1),
+                    Query::Union { all, .. } => !want.rows.is_empty() && (*all || want.rows.len() < candidates),
                     Query::Agg { group, .. } => !group.is_empty() && want.rows.len() >= 2,
                     Query::Join { kind, .. } => !matches!(kind, JoinKind::Cross) && !want.rows.is_empty() && want.rows.len() < candidates.max(1) + tables.iter().map(|t| t.rows.len()).sum::<usize>(),
                     _ => !want.rows.is_empty() && want.rows.len() < candidates,
@@ -549,6 +624,41 @@ pub fn run_case(c: &QCase) -> CaseOut {
                     break;
                 }
                 if n > 0 && (n as usize) < tables[ti].rows.len() {
+                    out.nontrivial.push(hash_of(&(case_hash, qi)));
+                }
+            }
+            Resolved::Insert { table, cols, rows } => {
+                let ti = *table as usize;
+                if cols.is_empty() || rows.is_empty() || tables[ti].rows.len() + rows.len() > 14 {
+                    continue;
+                }
+                let t = &tables[ti];
+                let sql = format!("INSERT INTO {} ({}) VALUES {}", t.name, cols.iter().map(|c| t.cols[*c as usize].0.clone()).collect::<Vec<_>>().join(", "), rows.iter().map(|r| format!("({})", r.iter().map(|v| v.sql()).collect::<Vec<_>>().join(", "))).collect::<Vec<_>>().join(", "));
+                match db.exec(&sql) {
+                    Ok(Out::Affected(k)) if k == rows.len() as u64 => {}
+                    Ok(o) => {
+                        out.failure = Some(fail("wrong_affected_count", format!("`{sql}`: engine {o:?}, {} rows were given", rows.len())));
+                        break;
+                    }
+                    Err(crate::dbx::Err::Panic(_)) => break,
+                    Err(e) => {
+                        out.failure = Some(fail("statement_rejected", format!("`{sql}`: {}", e.text())));
+                        break;
+                    }
+                }
+                let ncols = tables[ti].cols.len();
+                for r in rows {
+                    let mut full = vec![Val::Null; ncols];
+                    for (i, c) in cols.iter().enumerate() {
+                        full[*c as usize] = r[i].clone();
+                    }
+                    tables[ti].rows.push(full);
+                }
+                if let Some(f) = check_table(&mut db, &tables[ti], &sql, &tags) {
+                    out.failure = Some(f);
+                    break;
+                }
+                if cols.len() < ncols {
                     out.nontrivial.push(hash_of(&(case_hash, qi)));
                 }
             }
@@ -664,6 +774,10 @@ fn gen_table() -> BoxedStrategy<ATable> {
     }).prop_map(|(tys, rows)| ATable { tys, rows }).boxed()
 }
 
+pub fn join_on() -> BoxedStrategy<AB> {
+    prop_oneof![2 => gen_ab(), 3 => (any::<u16>(), any::<u16>()).prop_map(|(a, b)| AB::ColEq(a, b)), 1 => ((any::<u16>(), any::<u16>()), gen_ab()).prop_map(|((a, b), r)| AB::And(Box::new(AB::ColEq(a, b)), Box::new(r)))].boxed()
+}
+
 pub fn gen_aq() -> BoxedStrategy<AQ> {
     prop_oneof![
         8 => (0u8..2, 0u8..5, prop::option::weighted(0.3, gen_an()), prop::bool::weighted(0.15), prop::option::weighted(0.85, gen_ab()), prop::collection::vec((0u8..5, any::<bool>()), 0..3), prop::option::weighted(0.25, (0u8..7, 0u8..4)))
@@ -672,6 +786,10 @@ pub fn gen_aq() -> BoxedStrategy<AQ> {
         3 => (0u8..2, prop::collection::vec(0u8..5, 0..3), prop::collection::vec((0u8..6, any::<u16>()), 1..4), prop::option::weighted(0.3, gen_ab())).prop_map(|(t, group, aggs, pred)| AQ::Agg { t, group, aggs, pred }),
         2 => (0u8..2, prop::collection::vec((any::<u16>(), gen_an()), 1..4), prop::option::weighted(0.8, gen_ab())).prop_map(|(t, sets, pred)| AQ::Update { t, sets, pred }),
         1 => (0u8..2, prop::option::weighted(0.9, gen_ab())).prop_map(|(t, pred)| AQ::Delete { t, pred }),
+        3 => ([0u8..6, 0u8..6], [join_on(), join_on()], prop::option::weighted(0.3, gen_ab())).prop_map(|(kinds, ons, pred)| AQ::Join3 { kinds, ons, pred }),
+        // (UNION is not part of the grammar the parser accepts: the model keeps it, the generator does not emit it)
+        3 => (0u8..3, 0u8..5, prop::collection::vec((0u8..6, any::<u16>()), 1..3), any::<bool>(), any::<bool>()).prop_map(|(t, group, aggs, desc, agg_first)| AQ::AggOrdered { t, group, aggs, desc, agg_first }),
+        1 => (0u8..3, prop::collection::vec(0u8..5, 1..4), prop::collection::vec(prop::collection::vec(prop::option::weighted(0.85, 0u8..8), 4), 1..4)).prop_map(|(t, cols, rows)| AQ::Insert { t, cols, rows }),
     ]
     .boxed()
 }
@@ -852,6 +970,51 @@ pub fn aq_variants(q: &AQ) -> Vec<AQ> {
                 v.push(AQ::Delete { t: *t, pred: p });
             }
         }
+        AQ::Join3 { kinds, ons, pred } => {
+            for p in opt_ab_variants(pred) {
+                v.push(AQ::Join3 { kinds: *kinds, ons: ons.clone(), pred: p });
+            }
+            for j in 0..2 {
+                for o in ab_variants(&ons[j]) {
+                    let mut o2 = ons.clone();
+                    o2[j] = o;
+                    v.push(AQ::Join3 { kinds: *kinds, ons: o2, pred: pred.clone() });
+                }
+                if kinds[j] % 6 != 0 {
+                    let mut k2 = *kinds;
+                    k2[j] = 0;
+                    v.push(AQ::Join3 { kinds: k2, ons: ons.clone(), pred: pred.clone() });
+                }
+            }
+        }
+        AQ::Union { cols, preds, all } => {
+            for j in 0..2 {
+                for p in opt_ab_variants(&preds[j]) {
+                    let mut p2 = preds.clone();
+                    p2[j] = p;
+                    v.push(AQ::Union { cols: *cols, preds: p2, all: *all });
+                }
+            }
+        }
+        AQ::AggOrdered { t, group, aggs, desc, agg_first } => {
+            if aggs.len() > 1 {
+                v.push(AQ::AggOrdered { t: *t, group: *group, aggs: aggs[..1].to_vec(), desc: *desc, agg_first: *agg_first });
+            }
+            if *desc {
+                v.push(AQ::AggOrdered { t: *t, group: *group, aggs: aggs.clone(), desc: false, agg_first: *agg_first });
+            }
+            if *agg_first {
+                v.push(AQ::AggOrdered { t: *t, group: *group, aggs: aggs.clone(), desc: *desc, agg_first: false });
+            }
+        }
+        AQ::Insert { t, cols, rows } => {
+            if rows.len() > 1 {
+                v.push(AQ::Insert { t: *t, cols: cols.clone(), rows: rows[..1].to_vec() });
+            }
+            if cols.len() > 1 {
+                v.push(AQ::Insert { t: *t, cols: cols[..cols.len() - 1].to_vec(), rows: rows.clone() });
+            }
+        }
     }
     v
 }
@@ -888,7 +1051,7 @@ pub fn run_shard(ctx: &mut ShardCtx) {
     }
     let n = ctx.share(ctx.tier.pick(24_000, 1_500_000));
     let excluded: Vec<String> = ctx.excludes.keys().cloned().collect();
-    let strat = (prop::collection::vec(gen_table(), 1..3), prop::collection::vec(gen_aq(), 8..9)).prop_map(move |(tables, queries)| QCase { tables, queries, excluded: excluded.clone() });
+    let strat = (prop::collection::vec(gen_table(), 1..4), prop::collection::vec(gen_aq(), 8..9)).prop_map(move |(tables, queries)| QCase { tables, queries, excluded: excluded.clone() });
     ctx.search_with("queries", strat, n, &run_case, Some(&simpler));
 }
 
